@@ -1114,18 +1114,24 @@ theorem parseLoop_good (O : Oracles) (f : Format) (s : List Nat) (len : Nat) (hw
 
 theorem buildEpoch_no_panic (st : St) (hinv : st.Inv) : buildEpoch st ≠ .panic := by
   unfold St.Inv at hinv
+  have h3 : toU8 st.h = some st.h := by unfold toU8; rw [if_pos (by omega)]
+  have h4 : toU8 st.mi = some st.mi := by unfold toU8; rw [if_pos (by omega)]
+  have h5 : toU8 st.s = some st.s := by unfold toU8; rw [if_pos (by omega)]
+  have h6 : toU32 st.ns = some st.ns := by unfold toU32; rw [if_pos (by omega)]
   unfold buildEpoch
   split
-  · split
-    · simp
-    · simp
-    · rename_i h; exact absurd h (maybeFromGregorian_no_panic _ _ _ _ _ _ _ _)
+  · have g1 : toU8 (if st.mo = 0 ∧ st.d = 0 then 1 else st.mo) = some (if st.mo = 0 ∧ st.d = 0 then 1 else st.mo) := by
+      unfold toU8; rw [if_pos (by split <;> omega)]
+    have g2 : toU8 (if st.mo = 0 ∧ st.d = 0 then 1 else st.d) = some (if st.mo = 0 ∧ st.d = 0 then 1 else st.d) := by
+      unfold toU8; rw [if_pos (by split <;> omega)]
+    rw [g1, g2, h3, h4, h5, h6]
+    simp only
+    repeat' split
+    all_goals first
+      | (simp; done)
+      | (rename_i h; exact absurd h (maybeFromGregorian_no_panic _ _ _ _ _ _ _ _))
   · have h1 : toU8 st.mo = some st.mo := by unfold toU8; rw [if_pos (by omega)]
     have h2 : toU8 st.d = some st.d := by unfold toU8; rw [if_pos (by omega)]
-    have h3 : toU8 st.h = some st.h := by unfold toU8; rw [if_pos (by omega)]
-    have h4 : toU8 st.mi = some st.mi := by unfold toU8; rw [if_pos (by omega)]
-    have h5 : toU8 st.s = some st.s := by unfold toU8; rw [if_pos (by omega)]
-    have h6 : toU32 st.ns = some st.ns := by unfold toU32; rw [if_pos (by omega)]
     rw [h1, h2, h3, h4, h5, h6]
     exact maybeFromGregorian_no_panic _ _ _ _ _ _ _ _
 
